@@ -40,7 +40,7 @@ import copy
 import logging
 from collections import deque
 from dataclasses import dataclass
-from typing import Callable, Deque, Optional, Tuple, Union
+from typing import Callable, Deque, Optional, Sequence, Tuple, Union
 
 import numpy as np
 from scipy.optimize import (
@@ -457,10 +457,19 @@ def minimize_lbfgsb(
 
     # perform an early potential update of the objective function definition and
     # upgrade the gradient and the past sequence of gradients accordingly
+    is_rewritten = False
     if update_fun_def is not None:
+        grad_in, G_in = grad.copy(), [g.copy() for g in G]
         f0, f0_old, grad, G = update_fun_def(x, f0, copy.copy(f0), grad, X, G)
+        # the restored history (L-BFGS-B restart) may have been rewritten
+        is_rewritten = len(X) > 0 and is_history_rewritten(grad, G, grad_in, G_in)
 
-    if len(X) > 0:
+    if is_rewritten:
+        X, G = keep_new_point_and_filter(x, grad, X, G, maxcor, eps_SY, logger)
+        mats = rebuild_lbfgs_matrices(
+            X, G, maxcor, mats, eps_SY, is_check_factorization
+        )
+    elif len(X) > 0:
         # only happens if checkpoint is provided (L-BFGS-B restart)
         mats = update_lbfgs_matrices(
             x.copy(),  # copy otherwise x might be changed in X when updated
@@ -590,23 +599,15 @@ def minimize_lbfgsb(
             # perform a potential update of the objective function definition and
             # upgrade the gradient and the past sequence of gradients accordingly
             else:
-                grad_in, G_in = grad, G
+                grad_in, G_in = grad.copy(), [g.copy() for g in G]
                 f0, f0_old, grad, G = update_fun_def(x, f0, f0_old, grad, X, G)
-                # nothing has changed if the inputs are returned as they are
-                is_rewritten = grad is not grad_in or G is not G_in
+                # nothing to do if the values are returned as they are
+                is_rewritten = is_history_rewritten(grad, G, grad_in, G_in)
 
                 if is_rewritten:
-                    # The new point is always kept. The older ones are kept as long as
-                    # the updated G satisfy the strong wolfe condition, starting from
-                    # the new point, within the limit of maxcor corrections.
-                    X.append(x.copy())
-                    G.append(grad)
-                    X, G = make_X_and_G_respect_strong_wolfe(
-                        X, G, eps_SY, logger=logger
+                    X, G = keep_new_point_and_filter(
+                        x, grad, X, G, maxcor, eps_SY, logger
                     )
-                    while len(X) > maxcor + 1:
-                        X.popleft()
-                        G.popleft()
 
                 # Same stop criteria, in the same order as without update_fun_def
                 # 1) minimum objective function value
@@ -617,22 +618,9 @@ def minimize_lbfgsb(
                 elif is_f0_min_change_reached(f0, f0_old, ftol, istate):
                     break  # the while loop
 
-            if is_rewritten and len(X) == 1:
-                # no correction left with the new definition: reboot BFGS-Hessian
-                mats = LBFGSB_MATRICES(n)
-            elif is_rewritten:
-                # the matrices must be rebuilt from the rewritten history (the new point
-                # is re-inserted by the update, its curvature has just been checked)
-                mats = update_lbfgs_matrices(
-                    X.pop(),
-                    G.pop(),
-                    X,
-                    G,
-                    maxcor,
-                    mats,
-                    is_force_update=True,
-                    eps=eps_SY,
-                    is_check_factorization=is_check_factorization,
+            if is_rewritten:
+                mats = rebuild_lbfgs_matrices(
+                    X, G, maxcor, mats, eps_SY, is_check_factorization
                 )
             else:
                 mats = update_lbfgs_matrices(
@@ -787,6 +775,76 @@ def initialize_X_and_G(
         G.appendleft(g_i)
     # at this point, X and G do not have x nor jac -> it is added a bit later
     return X, G
+
+
+def is_history_rewritten(
+    grad: NDArrayFloat,
+    G: Deque[NDArrayFloat],
+    grad_in: NDArrayFloat,
+    G_in: Sequence[NDArrayFloat],
+) -> bool:
+    """
+    Return whether update_fun_def has changed the gradients it was given.
+
+    The values are compared (with copies taken before the call) so that both a new
+    sequence and a modification in place of the given arrays are detected.
+    """
+    return not (
+        np.array_equal(grad, grad_in)
+        and len(G) == len(G_in)
+        and all(np.array_equal(g, g_in) for g, g_in in zip(G, G_in))
+    )
+
+
+def keep_new_point_and_filter(
+    x: NDArrayFloat,
+    grad: NDArrayFloat,
+    X: Deque[NDArrayFloat],
+    G: Deque[NDArrayFloat],
+    maxcor: int,
+    eps_SY: float,
+    logger: Optional[logging.Logger],
+) -> Tuple[Deque[NDArrayFloat], Deque[NDArrayFloat]]:
+    """
+    Return the history to use after update_fun_def has rewritten the gradients.
+
+    The new point is always kept. The older ones are kept as long as the updated G
+    satisfy the strong wolfe condition, starting from the new point, within the
+    limit of maxcor corrections.
+    """
+    X.append(x.copy())
+    G.append(grad)
+    X, G = make_X_and_G_respect_strong_wolfe(X, G, eps_SY, logger=logger)
+    while len(X) > maxcor + 1:
+        X.popleft()
+        G.popleft()
+    return X, G
+
+
+def rebuild_lbfgs_matrices(
+    X: Deque[NDArrayFloat],
+    G: Deque[NDArrayFloat],
+    maxcor: int,
+    mats: LBFGSB_MATRICES,
+    eps_SY: float,
+    is_check_factorization: bool,
+) -> LBFGSB_MATRICES:
+    """Return the L-BFGS matrices of the (rewritten and filtered) history X, G."""
+    if len(X) == 1:
+        # no correction left with the new definition: reboot BFGS-Hessian
+        return LBFGSB_MATRICES(X[0].size)
+    # the newest point is re-inserted by the update (its curvature has been checked)
+    return update_lbfgs_matrices(
+        X.pop(),
+        G.pop(),
+        X,
+        G,
+        maxcor,
+        mats,
+        is_force_update=True,
+        eps=eps_SY,
+        is_check_factorization=is_check_factorization,
+    )
 
 
 def is_f0_min_change_reached(
